@@ -227,7 +227,8 @@ class LambertIOD(InitialOrbitDetermination):
             .filter(
                 Observation.sensor_type != SensorLabel.OPTICAL,
             )  # Only Radar/AdvRadar Obs for Lambert IOD
-            .order_by(asc(Observation.julian_date))
+            # [NOTE]: Observations of one epoch are stored in the order their tasking jobs finished: break the tie.
+            .order_by(asc(Observation.julian_date), asc(Observation.sensor_id))
         )
 
         return database.getData(observation_query)
@@ -320,7 +321,8 @@ class LambertIOD(InitialOrbitDetermination):
             ``ndarray`` | ``None``: [6x1] ECI state vector at the current time, but only the position is valid
         """
         # [TODO]: put a method that checks for the obs with the smallest residual?
-        for observation in observations:
+        # [NOTE]: The list is in the order the tasking jobs finished; pick the same observation whatever that order was.
+        for observation in sorted(observations, key=lambda ob: ob.sensor_id):
             if observation.range_km:
                 return radarObs2eciPosition(observation)
 
